@@ -280,8 +280,57 @@ func runC14(p *an.Prog, r *an.Run, tier string) {
 			bad = append(bad, "the pending table is accessed with a key other than the requested id")
 		}
 	}
+	// pending entries (the slots live callers wait on) are discarded only when the table has reached its configured
+	// limit: every removal in getPendingChan's region is guarded by len(pending) >= PendingLimit (comparing with the
+	// discard count instead evicts live callers' slots long before the limit; their replies land where nobody reads)
+	nEvict := 0
+	for _, rf := range regionFuncs(p, gpc) {
+		for _, a := range poolMapAccessesIn(p, rf, "pending") {
+			if a.Kind != "delete" {
+				continue
+			}
+			nEvict++
+			site := a.In
+			blocks := []*ssa.BasicBlock{site.Block()}
+			if rf != gpc {
+				blocks = nil
+				for _, c := range an.Calls(gpc, false) {
+					if c.Common().StaticCallee() == rf {
+						blocks = append(blocks, c.Block())
+					}
+				}
+			}
+			for _, b := range blocks {
+				okLimit := false
+				for _, cr := range ctrlRels(b) {
+					l, r0, op := cr.L, cr.R, cr.Op
+					if _, isLen := an.LenOf(r0); isLen {
+						l, r0 = r0, l
+						op = cr.Rel.Swap().Op
+					}
+					x, isLen := an.LenOf(l)
+					if !isLen || memMapFieldName(x) != "pending" {
+						continue
+					}
+					if fv := an.FieldOf(stripLoad(r0)); fv != nil && fv.Name() == "PendingLimit" && (op == token.GEQ || op == token.GTR) {
+						okLimit = true
+					}
+				}
+				if !okLimit {
+					bad = append(bad, "pending reply slots are discarded at "+p.Pos(site.Pos())+" without the table having reached PendingLimit")
+				}
+			}
+		}
+	}
+	_ = nEvict
 	// the channel returned is the entry's channel (existing or the one just stored)
 	r.Check(len(bad) == 0, "async-dispatch", an.FuncName(gpc), gpc.Pos(), "one buffered channel per id", "%s", strings.Join(bad, "; "))
+
+	checkNoReadaheadLoss(p, r)
+	// request ids are handed out by one atomic operation on the shared counter (shared with C10.atomic-rmw)
+	if rmw, _ := splitAtomicRMW(p); true {
+		r.Check(len(rmw) == 0, "atomic-rmw", "repo", token.NoPos, "atomic updates are single operations on the shared variable", "%s", strings.Join(rmw, "; "))
+	}
 
 	// ---- writer-stateless: Remote writes to the connection from several goroutines (Call, and every request handler
 	// answering) without a lock of its own, so a codec's WriteMessage either keeps nothing between calls or guards what it
@@ -759,4 +808,14 @@ func replyChanBuffered(gpc *ssa.Function) bool {
 		}
 	})
 	return ok && n >= 1
+}
+
+// memMapFieldName: the name of the map-typed field v is loaded from ("" when it is not a field load).
+func memMapFieldName(v ssa.Value) string {
+	if fv := an.FieldOf(stripLoad(v)); fv != nil {
+		if _, ok := fv.Type().Underlying().(*types.Map); ok {
+			return an.Ident(fv.Name())
+		}
+	}
+	return ""
 }
